@@ -837,12 +837,15 @@ package resolver
 //@   assert at append#1: hdrOf(rr).Rrtype == dns.TypeOPT || lastret("internal/dnsutil.NameInZone")
 //@   assert at call internal/dnsutil.NameInZone#1: arg1 == z
 
-//@ # an answer section answers a question iff it holds a record of the question's type, a CNAME or a DNAME (any record,
-//@ # for type ANY)
+//@ # an answer section answers a question only if a record OWNED BY THE NAME ASKED (ASCII case-insensitively) is of the
+//@ # question's type (any type for ANY) or a CNAME, or a DNAME sits at or above the name; a record of the right type under
+//@ # another owner does not count
 //@ func answersQuestion
-//@   requires forall i int :: {answer[i]} 0 <= i && i < len(answer) ==> answer[i] != nil
-//@   modifies nothing
-//@   loop 1 invariant 0 <= rangeidx && rangeidx <= len(answer) && forall j int :: {answer[j]} 0 <= j && j < rangeidx ==> hdrOf(answer[j]).Rrtype != q.Qtype && hdrOf(answer[j]).Rrtype != dns.TypeCNAME && hdrOf(answer[j]).Rrtype != dns.TypeDNAME && q.Qtype != dns.TypeANY
-//@   ensures !result ==> forall j int :: {answer[j]} 0 <= j && j < len(answer) ==> hdrOf(answer[j]).Rrtype != q.Qtype && hdrOf(answer[j]).Rrtype != dns.TypeCNAME && hdrOf(answer[j]).Rrtype != dns.TypeDNAME
-//@   ensures result ==> exists j int :: {answer[j]} 0 <= j && j < len(answer) && (hdrOf(answer[j]).Rrtype == q.Qtype || hdrOf(answer[j]).Rrtype == dns.TypeCNAME || hdrOf(answer[j]).Rrtype == dns.TypeDNAME || q.Qtype == dns.TypeANY)
+//@   abstract
+//@   nosafety all pre
+//@   assert at return#1: result && lastret("strings.EqualFold") && (h.Rrtype == q.Qtype || h.Rrtype == dns.TypeCNAME || q.Qtype == dns.TypeANY)
+//@   assert at call strings.EqualFold#1: arg0 == h.Name && arg1 == q.Name
+//@   assert at return#2: result && lastret("github.com/miekg/dns.IsSubDomain")
+//@   assert at call github.com/miekg/dns.IsSubDomain#1: arg0 == h.Name && arg1 == q.Name && h.Rrtype == dns.TypeDNAME
+//@   assert at return#3: !result && exhausted(1)
 
